@@ -83,3 +83,8 @@ Definition prim_scan (p : list tok) : list string :=
                                        else [("appendEvents performs " ++ n)%string]
                            | _ => [] end) p).
 Definition append_prim_ok : list string := concat (map prim_scan gen_append_prim).
+
+(** withLock itself: open (creating the lock file through the no-truncate ensure when missing) and
+    flock — no rename / remove / chmod of the lock file, which would let two processes lock different inodes. *)
+Definition withlock_prim_ok : list string :=
+  concat (map (fun p => concat (map (fun t => match t with TRaw n => [("withLock performs " ++ n)%string] | _ => [] end) p)) gen_withlock_prim).
